@@ -1,4 +1,5 @@
 import RgVerif.Lemmas.BufWriter
+import RgVerif.Lemmas.BlockParse
 /-
 C08 — multi-threaded output is a permutation of the single-threaded per-file blocks.
 Model: `RgVerif.BufWriter` (termcolor `BufferWriter::print`, `write_search_prelude`, hiargs `threads` /
@@ -105,6 +106,46 @@ example : (some [45, 45] = none ∨ ([10] : Bytes) = [10]) ∧
     outPar (some [45, 45]) [[99, 10], [], [97, 10]] = [99, 10, 45, 45, 10, 97, 10] ∧
     outSeq (some [45, 45]) [10] [[97, 10], [], [99, 10]] = [97, 10, 45, 45, 10, 99, 10] := by
   refine ⟨.inr rfl, by decide, by decide, by decide⟩
+
+/-! ### the block grammar parses uniquely -/
+
+/-- **Parsing inverts joining**: for well-formed blocks (each starts and ends with a line of its file and
+contains otherwise only lines of that file and context separators), consecutive blocks of different files,
+and `k` separator lines in every gap, the harness's cutting procedure returns exactly those blocks, `k` for
+every gap, and no stray separator before or after. -/
+theorem parse_join (k : Nat) (blocks : List (Nat × List Line))
+    (hwf : ∀ pb ∈ blocks, wfBlock pb.1 pb.2 = true) (hadj : adjDistinct blocks = true) :
+    parse (joinLines k blocks) = (blocks, List.replicate (blocks.length - 1) k, 0, 0) := by
+  match blocks, hwf, hadj with
+  | [], _, _ => rfl
+  | (p, b) :: rest, hwf, hadj =>
+    have hwfp : wfBlock p b = true := hwf (p, b) List.mem_cons_self
+    have hwfr : ∀ pb ∈ rest, wfBlock pb.1 pb.2 = true := fun x hx => hwf x (List.mem_cons_of_mem _ hx)
+    unfold parse
+    rw [joinLines_cons, List.foldl_append, fold_block p b hwfp {} (by intro q ls r h; cases h)]
+    simp only
+    rw [fold_rest k rest p b [] [] 0 hwfr hadj]
+    simp
+
+/-- Hence the cut is unique: two lists of well-formed blocks with the same output are the same list. -/
+theorem block_grammar_unambiguous (k k' : Nat) (bs bs' : List (Nat × List Line))
+    (hwf : ∀ pb ∈ bs, wfBlock pb.1 pb.2 = true) (hadj : adjDistinct bs = true)
+    (hwf' : ∀ pb ∈ bs', wfBlock pb.1 pb.2 = true) (hadj' : adjDistinct bs' = true)
+    (h : joinLines k bs = joinLines k' bs') : bs = bs' := by
+  have h1 := parse_join k bs hwf hadj
+  have h2 := parse_join k' bs' hwf' hadj'
+  rw [h] at h1
+  rw [h1] at h2
+  exact (Prod.mk.inj h2).1
+
+/-! ### files whose search fails part-way -/
+
+/-- Whether or not a file's search ended in an error, what it had printed until then is a block like any
+other in both drivers (the revert of 1ed0364, which dropped it under `-jN`, is a mutant). -/
+theorem C08_failing (sep : Option Bytes) (term : Bytes) (items : List (Bytes × Bool)) :
+    outParF sep items = joinSep (sepLine sep [10]) (nonempty (items.map (·.1))) ∧
+    outSeqF sep term items = joinSep (sepLine sep term) (nonempty (items.map (·.1))) :=
+  ⟨par_output sep _, seq_output sep term _⟩
 
 /-- `--sort`: one thread, hence the single-threaded driver, hence exactly the single-threaded output of
 the sorted traversal — a function of the sorted file list alone (reproducible). -/
